@@ -203,7 +203,9 @@ class _Raiser:
 def _s_sut(sc):
     r = sc.rnd
     return r.choice([r.choice(_BIG), r.choice(_FLO), r.choice(["", "a", "b", "ab"]), r.choice([b"", b"a"]), {1}, {1, 2}, frozenset(),
-                     [1], [math.nan], (), None, True, 1 + 2j, _TruthyEmpty(), _Raiser(), ValueError, ValueError("x"), KeyError])
+                     [1], [math.nan], (), None, True, 1 + 2j, _TruthyEmpty(), _Raiser(), ValueError, ValueError("x"), KeyError,
+                     # one-shot iterators (a membership test consumes them up to the hit)
+                     iter([0, 1]), iter([1]), (x for x in (2, 0, -1)), iter("ab"), reversed([1, 0])])
 
 
 @builder("ExecutionTrace")
